@@ -31,6 +31,8 @@ import time
 from .. import common
 
 K = 3                       # extern calls per victim
+SEQ_VICTIMS = ("A",)        # victims on which 2-fault sequences are run (thorough tier)
+SEQ_LINGER_MS = 200         # close_stdin/close_both keep running this long in 2-fault sequences
 RUN_TIMEOUT = 10            # seconds; a run that exceeds it is repeated alone with HANG_TIMEOUT
 HANG_TIMEOUT = 60
 GRACE_S = 0.3               # a descendant alive this long after nano_vm exited is "slow"
@@ -406,6 +408,10 @@ def signature(obs):
 
 def _job(args):
     ctx, victim, cells = args
+    if os.path.exists(os.path.join(ctx["work"], "ABORT")):
+        # the parent has given up (harness error or deadline): drain the queue without working, so the
+        # pool is shut down idle and never terminated in the middle of a case
+        return (victim, cells, None, "skipped")
     try:
         obs = run_case(ctx, victim, cells)
         if obs["rc"] == "timeout":
@@ -516,24 +522,37 @@ def run(tier):
         for stage, sjobs in stages:
             if sjobs is None:
                 sjobs = []
+                ctx2 = dict(ctx, linger_ms=SEQ_LINGER_MS)
                 for v, c1 in relaunchers:
                     for c2 in one_fault_cells(v):          # reply tags of the relaunched cop's k-th request are not those of call k
-                        sjobs.append((ctx, v, [c1, c2]))
+                        sjobs.append((ctx2, v, [c1, c2]))
                 seq_done = True
                 rep.coverage["two_fault_first_faults"] = len(relaunchers)
             planned += len(sjobs)
             n_stage = 0
+            fatal = None
+
+            def give_up(msg):
+                with open(os.path.join(ctx["work"], "ABORT"), "w") as f:
+                    f.write(msg or "deadline")
+                return msg
+
             for victim, cells, obs, herr in common.pimap(_job, sjobs, chunksize=4):
+                if fatal or herr == "skipped" or rep.exhaustive is False:
+                    continue                    # draining
                 if herr:
-                    raise common.HarnessError("%s: %s" % (cell_text(variant, victim, cells), herr))
+                    fatal = give_up("%s: %s" % (cell_text(variant, victim, cells), herr))
+                    continue
                 if obs["harness_fail"]:
-                    raise common.HarnessError("%s: fake_cop reports %r" % (cell_text(variant, victim, cells), obs["harness_fail"]))
+                    fatal = give_up("%s: fake_cop reports %r" % (cell_text(variant, victim, cells), obs["harness_fail"]))
+                    continue
                 executed += 1
                 n_stage += 1
                 want = [(str(i + 1), c[0], str(c[1]), c[2], c[3]) for i, c in enumerate(cells)]
                 inj = [tuple(x) for x in obs["injected"]]
                 if inj != want[:len(inj)]:
-                    raise common.HarnessError("%s: injected %r, scripted %r" % (cell_text(variant, victim, cells), inj, want))
+                    fatal = give_up("%s: injected %r, scripted %r" % (cell_text(variant, victim, cells), inj, want))
+                    continue
                 reached = len(inj) == len(cells)
                 if reached:
                     injected_n += 1
@@ -541,10 +560,11 @@ def run(tier):
                     not_reached += 1
                     if stage == "1-fault":
                         # nothing precedes a single fault: the step must be reached, or the relay is broken
-                        raise common.HarnessError("%s: scripted step never reached; log %r" % (cell_text(variant, victim, cells), obs["log"][-6:]))
+                        fatal = give_up("%s: scripted step never reached; log %r" % (cell_text(variant, victim, cells), obs["log"][-6:]))
+                        continue
                 ok, cls, detail = judge(VICTIMS[victim], cells, obs, bases[variant][victim], reqmaps[variant][victim])
                 outcomes[cls] = outcomes.get(cls, 0) + 1
-                if stage == "1-fault" and ok and obs["launches"] >= 2 and obs["rc"] == VICTIMS[victim][1] and victim != "D":
+                if stage == "1-fault" and ok and obs["launches"] >= 2 and obs["rc"] == VICTIMS[victim][1] and victim in SEQ_VICTIMS:
                     relaunchers.append((victim, cells[0]))
                 if reached or stage == "1-fault":
                     rep.sample({"cell": cell_text(variant, victim, cells), "outcome": cls, "exit": obs["rc"],
@@ -552,7 +572,9 @@ def run(tier):
                 if not ok and reached:
                     groups.setdefault((cls, cells[-1][2], len(cells)), []).append((variant, victim, cells, obs, detail))
                 if rep.out_of_time():
-                    break
+                    give_up(None)
+            if fatal:
+                raise common.HarnessError(fatal)
             per_variant["%s %s" % (variant, stage)] = n_stage
             if rep.out_of_time():
                 break
@@ -604,7 +626,8 @@ def run(tier):
         "excluded as outside the property: a peer that never answers while the VM legitimately waits (no timeout exists), a peer that ignores SIGTERM, well-formed replies with a wrong value, duplicated well-formed replies",
         "'linger' (wedged, SIGTERM-able peer) is only combined with messages no VM can accept",
         "orphan = descendant of nano_vm still alive (not a zombie) %.0f s after nano_vm exited, found by the sub-reaping runner through /proc" % REMAIN_S,
-        "quick: sanitizer build on victims A and D, close_* faults keep running %d ms; thorough: sanitizer build on all victims, 1000 ms, and every 2-fault sequence whose first fault led to a relaunch" % 300,
+        "quick: sanitizer build on victims A and D, close_stdin/close_both keep running 300 ms; thorough: sanitizer build on all victims, 1000 ms, and on victim %s "
+        "every 2-fault sequence (first fault = each 1-fault cell after which the VM relaunched a co-process and finished, second fault = the whole 1-fault product in the relaunched one, %d ms)" % ("/".join(SEQ_VICTIMS), SEQ_LINGER_MS),
     ]
     if not rep.out_of_time():
         if executed != planned:
